@@ -2,23 +2,32 @@
     machine over an abstract clock (Z, nanoseconds).
     Model file: definitions only, no proofs (proofs: proofs/CronProofs.v).
 
+    This is the model of the code AFTER the repairs of D38 (Rem re-arms the
+    timer), D49 (the [suspended] field: resetTimer does not arm and the timer
+    branch does not fire while suspended), D50 (schedule checks the limit
+    before it removes the pending job of the same id) and D26 (jobs whose
+    callback runs are kept in [Cron.running]; rem marks them [removed], and a
+    marked job does not re-schedule itself).
+
     State = the exported [Timeline] (pending jobs, kept sorted by [Next]), the
-    jobs whose callback goroutine is running (popped from the timeline by the
-    loop, not yet returned from [Cron.run]), the loop's [suspendedLocally]
-    flag, [Limit], the target of the one [time.Timer] ([None] = stopped or
-    already delivered) and the log of fire events.
+    list [running] (jobs popped from the timeline by the loop whose [Fn] has
+    not returned, each with its [removed] mark), the [suspended] field,
+    [Limit], the target of the one [time.Timer] ([None] = stopped or already
+    delivered) and the log of fire events.
 
     Operations (one per critical section of the Go code; every one of them
     runs under [c.Lock()]):
       [CAdd id next recurring now]  Cron.Add -> schedule(job, checkLimit=true)
-      [CRem id]                     Cron.Rem
+      [CRem id now]                 Cron.Rem
       [CTick now]                   the loop's [case <-c.timer.C] branch
       [CDone id now next']          the tail of Cron.run after [job.Fn]
-                                    returned: a recurring job re-schedules
-                                    itself (checkLimit=false) at
+                                    returned: the job leaves [running]; a
+                                    recurring job that was not removed
+                                    meanwhile re-schedules itself
+                                    (checkLimit=false) at
                                     [next' = Expression.Next(now)]
-      [CSuspend], [CResume now], [CPause now] (net effect of a pause: the loop
-      sleeps, then [resetTimerLocked] at [now]).
+      [CSuspend], [CResume now] (setSuspended), [CPause now] (net effect of a
+      pause: the loop sleeps, then [resetTimerLocked] at [now]).
     Instants ([now], [next']) are inputs of the trace, never a clock. *)
 From Verif Require Import Json.
 
@@ -28,8 +37,8 @@ Record fire := mkFire { f_id : string; f_now : Z; f_next : Z; f_rec : bool }.
 
 Record cron := mkCron {
   c_tl : list cjob;
-  c_inflight : list cjob;
-  c_susp : bool;
+  c_inflight : list (cjob * bool);   (* Cron.running: job, CronJob.removed *)
+  c_susp : bool;                     (* Cron.suspended *)
   c_limit : Z;
   c_armed : option Z;
   c_fires : list fire   (* newest first *)
@@ -37,7 +46,7 @@ Record cron := mkCron {
 
 Inductive cop :=
 | CAdd (id : string) (next : Z) (recurring : bool) (now : Z)
-| CRem (id : string)
+| CRem (id : string) (now : Z)
 | CTick (now : Z)
 | CDone (id : string) (now : Z) (next' : Z)
 | CSuspend
@@ -76,7 +85,8 @@ Definition tl_insert_at (j : cjob) (tl : list cjob) : list cjob :=
   let at_ := tl_search (j_next j) tl in
   (firstn at_ tl ++ j :: skipn at_ tl)%list.
 
-(** Cron.rem: delete the first job with the id; reports whether one was found. *)
+(** Cron.rem, timeline part: delete the first job with the id; reports
+    whether one was found. *)
 Fixpoint tl_rem (id : string) (tl : list cjob) : bool * list cjob :=
   match tl with
   | [] => (false, [])
@@ -85,33 +95,59 @@ Fixpoint tl_rem (id : string) (tl : list cjob) : bool * list cjob :=
       else let '(f, r') := tl_rem id r in (f, x :: r')
   end.
 
-(** Cron.resetTimer: arm for the head (not earlier than now), stop when the
-    timeline is empty. *)
-Definition reset_timer (tl : list cjob) (now : Z) : option Z :=
+(** Cron.rem, running part: every running job with the id that is not marked
+    yet is marked [removed]; a recurring one counts as found. *)
+Fixpoint mark_removed (id : string) (l : list (cjob * bool)) : bool * list (cjob * bool) :=
+  match l with
+  | [] => (false, [])
+  | (j, removed) :: r =>
+      let '(f, r') := mark_removed id r in
+      if String.eqb (j_id j) id && negb removed
+      then (j_rec j || f, (j, true) :: r')
+      else (f, (j, removed) :: r')
+  end.
+
+(** Cron.rem. *)
+Definition c_rem (id : string) (tl : list cjob) (infl : list (cjob * bool))
+  : bool * list cjob * list (cjob * bool) :=
+  let '(f1, tl') := tl_rem id tl in
+  let '(f2, infl') := mark_removed id infl in
+  (f1 || f2, tl', infl').
+
+(** Cron.resetTimer: nothing is armed while suspended; otherwise arm for the
+    head (not earlier than now), stop when the timeline is empty. *)
+Definition reset_timer (susp : bool) (tl : list cjob) (now : Z) : option Z :=
+  if susp then None else
   match tl with
   | [] => None
   | j :: _ => Some (Z.max (j_next j) now)
   end.
 
-(** Cron.schedule.  Note the order of effects: the job with the same id is
-    removed BEFORE the limit check, and the error path neither re-inserts it
-    nor resets the timer. *)
-Definition schedule (c : cron) (j : cjob) (check_limit : bool) (now : Z) : cron * bool :=
-  let '(_, tl1) := tl_rem (j_id j) (c_tl c) in
-  if check_limit && (c_limit c <=? Z.of_nat (length tl1)) then
-    (mkCron tl1 (c_inflight c) (c_susp c) (c_limit c) (c_armed c) (c_fires c), false)
-  else
-    let tl2 := tl_insert j tl1 in
-    (mkCron tl2 (c_inflight c) (c_susp c) (c_limit c) (reset_timer tl2 now) (c_fires c), true).
+Definition on_tl (id : string) (tl : list cjob) : bool :=
+  existsb (fun x => String.eqb (j_id x) id) tl.
 
-(** Remove the first in-flight job with the id. *)
-Fixpoint take_inflight (id : string) (l : list cjob) : option (cjob * list cjob) :=
+(** The limit check of Cron.schedule: a pending job with the same id is
+    replaced, not added, so it does not count. *)
+Definition over_limit (c : cron) (id : string) : bool :=
+  c_limit c <=? Z.of_nat (length (c_tl c)) - (if on_tl id (c_tl c) then 1 else 0).
+
+(** Cron.schedule after the [finished] test: limit check first (a refused
+    request has no effect), then rem, insert, resetTimer. *)
+Definition schedule (c : cron) (j : cjob) (check_limit : bool) (now : Z) : cron * bool :=
+  if check_limit && over_limit c (j_id j) then (c, false)
+  else
+    let '(_, tl1, infl1) := c_rem (j_id j) (c_tl c) (c_inflight c) in
+    let tl2 := tl_insert j tl1 in
+    (mkCron tl2 infl1 (c_susp c) (c_limit c) (reset_timer (c_susp c) tl2 now) (c_fires c), true).
+
+(** Cron.finished: take the (first) running job with the id off the list. *)
+Fixpoint take_inflight (id : string) (l : list (cjob * bool)) : option (cjob * bool * list (cjob * bool)) :=
   match l with
   | [] => None
-  | x :: r =>
-      if String.eqb (j_id x) id then Some (x, r)
+  | (x, m) :: r =>
+      if String.eqb (j_id x) id then Some (x, m, r)
       else match take_inflight id r with
-           | Some (y, r') => Some (y, x :: r')
+           | Some (y, m', r') => Some (y, m', (x, m) :: r')
            | None => None
            end
   end.
@@ -128,15 +164,15 @@ Definition consume_timer (armed : option Z) (now : Z) : option Z :=
 Definition step (c : cron) (o : cop) : cron :=
   match o with
   | CAdd id next recurring now => fst (schedule c (mkJob id next recurring) true now)
-  | CRem id =>
-      (* no resetTimer here *)
-      mkCron (snd (tl_rem id (c_tl c))) (c_inflight c) (c_susp c) (c_limit c) (c_armed c) (c_fires c)
+  | CRem id now =>
+      let '(found, tl', infl') := c_rem id (c_tl c) (c_inflight c) in
+      mkCron tl' infl' (c_susp c) (c_limit c)
+             (if found then reset_timer (c_susp c) tl' now else c_armed c) (c_fires c)
   | CTick now =>
-      (* the branch does not look at suspendedLocally *)
       match c_tl c with
       | j :: r =>
-          if j_next j <=? now then
-            mkCron r (j :: c_inflight c) (c_susp c) (c_limit c) (reset_timer r now)
+          if negb (c_susp c) && (j_next j <=? now) then
+            mkCron r ((j, false) :: c_inflight c) (c_susp c) (c_limit c) (reset_timer (c_susp c) r now)
                    (mkFire (j_id j) now (j_next j) (j_rec j) :: c_fires c)
           else mkCron (c_tl c) (c_inflight c) (c_susp c) (c_limit c) (consume_timer (c_armed c) now) (c_fires c)
       | [] => mkCron [] (c_inflight c) (c_susp c) (c_limit c) (consume_timer (c_armed c) now) (c_fires c)
@@ -144,15 +180,16 @@ Definition step (c : cron) (o : cop) : cron :=
   | CDone id now next' =>
       match take_inflight id (c_inflight c) with
       | None => c
-      | Some (j, rest) =>
+      | Some (j, removed, rest) =>
           let c1 := mkCron (c_tl c) rest (c_susp c) (c_limit c) (c_armed c) (c_fires c) in
-          if j_rec j then fst (schedule c1 (mkJob id next' true) false now) else c1
+          if j_rec j && negb removed then fst (schedule c1 (mkJob id next' true) false now) else c1
       end
   | CSuspend => mkCron (c_tl c) (c_inflight c) true (c_limit c) None (c_fires c)
   | CResume now =>
-      if c_susp c then mkCron (c_tl c) (c_inflight c) false (c_limit c) (reset_timer (c_tl c) now) (c_fires c)
+      if c_susp c then mkCron (c_tl c) (c_inflight c) false (c_limit c) (reset_timer false (c_tl c) now) (c_fires c)
       else c
-  | CPause now => mkCron (c_tl c) (c_inflight c) (c_susp c) (c_limit c) (reset_timer (c_tl c) now) (c_fires c)
+  | CPause now =>
+      mkCron (c_tl c) (c_inflight c) (c_susp c) (c_limit c) (reset_timer (c_susp c) (c_tl c) now) (c_fires c)
   end.
 
 Definition run (ops : list cop) (c : cron) : cron := fold_left step ops c.
@@ -160,14 +197,16 @@ Definition run (ops : list cop) (c : cron) : cron := fold_left step ops c.
 (** Observables of an operation (what the Go call returns). *)
 Definition add_ok (c : cron) (id : string) (next : Z) (recurring : bool) (now : Z) : bool :=
   snd (schedule c (mkJob id next recurring) true now).
-Definition rem_found (c : cron) (id : string) : bool := fst (tl_rem id (c_tl c)).
+Definition rem_found (c : cron) (id : string) : bool :=
+  fst (fst (c_rem id (c_tl c) (c_inflight c))).
 
 (** The timer will deliver at [now]: armed with a target that has been reached. *)
 Definition tick_enabled (c : cron) (now : Z) : bool :=
   match c_armed c with Some t => t <=? now | None => false end.
 
 (** A stalled instance: jobs are pending, the loop is not suspended, and the
-    timer is stopped, so nothing fires until some other call resets the timer. *)
+    timer is stopped, so nothing fires until some other call resets the timer
+    (unreachable after the repair of D38: timer_armed_invariant). *)
 Definition stalled (c : cron) : bool :=
   match c_tl c, c_armed c with
   | _ :: _, None => negb (c_susp c)
